@@ -648,6 +648,16 @@ func checkPKCEVerifier(c *km.Ctx, s *km.Sem, vf *ssa.Function) (verifier, code *
 						}
 					}
 				}
+				viaTable := false
+				if q == nil {
+					// the transform looked up by method in a table of functions: each entry is judged
+					if tq, why, ok := pkceTableTransform(c, k, o, vf); ok {
+						q, viaTable = tq, true
+					} else if why != "" {
+						desc = why
+						continue
+					}
+				}
 				if q == nil {
 					desc = "other side is not the verifier or its S256 transform: " + km.ValStr(o)
 					continue
@@ -657,6 +667,9 @@ func checkPKCEVerifier(c *km.Ctx, s *km.Sem, vf *ssa.Function) (verifier, code *
 					continue
 				}
 				switch {
+				case viaTable:
+					found, verifier = true, q
+					desc = "transform chosen by method from a table whose entries are identity for \"\"/plain and base64url(sha256) for S256"
 				case !s256 && hasMethod && (method == "" || method == "plain"):
 					found, verifier = true, q
 					desc = "verifier == challenge under method=" + method
@@ -760,4 +773,95 @@ func isS256Of(v ssa.Value, verifier *ssa.Parameter) bool {
 		}
 	}
 	return false
+}
+
+// pkceTableTransform: o = table[protectedData.CodeChallengeMethod](verifier parameter), with the presence of the
+// method in the table established on this path, and a table (package-level, filled once) that maps "" and "plain"
+// to the identity and "S256" to base64url(sha256(.)) and holds nothing else. Returns the verifier parameter.
+func pkceTableTransform(c *km.Ctx, k km.Conj, o ssa.Value, vf *ssa.Function) (*ssa.Parameter, string, bool) {
+	cl, ok := km.Unwrap(o).(*ssa.Call)
+	if !ok || cl.Common().IsInvoke() || km.StaticCallee(cl.Common()) != nil || len(cl.Common().Args) != 1 {
+		return nil, "", false
+	}
+	q, isP := km.Unwrap(cl.Common().Args[0]).(*ssa.Parameter)
+	if !isP || q.Parent() != vf {
+		return nil, "", false
+	}
+	fv := km.Unwrap(cl.Common().Value)
+	var lk *ssa.Lookup
+	if ex, isEx := fv.(*ssa.Extract); isEx && ex.Index == 0 {
+		lk, _ = ex.Tuple.(*ssa.Lookup)
+	} else {
+		lk, _ = fv.(*ssa.Lookup)
+	}
+	if lk == nil || !mentionsField(lk.Index, "CodeChallengeMethod") {
+		return nil, "transform is not looked up by the code's challenge method", false
+	}
+	u, isU := km.Unwrap(lk.X).(*ssa.UnOp)
+	if !isU {
+		return nil, "", false
+	}
+	g, isG := u.X.(*ssa.Global)
+	if !isG {
+		return nil, "", false
+	}
+	present := false
+	for _, f := range k.List() {
+		if ex, isEx := f.X.(*ssa.Extract); isEx && ex.Tuple == ssa.Value(lk) && ex.Index == 1 && f.Op == token.ILLEGAL && f.Pol {
+			present = true
+		}
+		if f.Op == token.NEQ && km.IsNilConst(f.Y) && km.Unwrap(f.X) == fv {
+			present = true
+		}
+	}
+	if !present {
+		return nil, "the method's presence in the transform table is not established on this path", false
+	}
+	entries, okTab := globalTableEntries(c, g)
+	if !okTab {
+		return nil, "transform table is not a package-level map filled once", false
+	}
+	seen := map[string]bool{}
+	for _, mu := range entries {
+		key, isC := km.ConstString(mu.Key)
+		if !isC {
+			return nil, "transform table has a non-constant key", false
+		}
+		var fn *ssa.Function
+		switch x := km.Unwrap(mu.Value).(type) {
+		case *ssa.Function:
+			fn = x
+		case *ssa.MakeClosure:
+			if len(x.Bindings) == 0 {
+				fn, _ = x.Fn.(*ssa.Function)
+			}
+		}
+		if fn == nil || fn.Blocks == nil || len(fn.Params) != 1 {
+			return nil, "transform table entry " + key + " is not a plain function of the verifier", false
+		}
+		for _, b := range fn.Blocks {
+			ret, isRet := b.Instrs[len(b.Instrs)-1].(*ssa.Return)
+			if !isRet {
+				continue
+			}
+			rv := km.Unwrap(km.ReturnValues(ret)[0])
+			switch key {
+			case "", "plain":
+				if rv != ssa.Value(fn.Params[0]) {
+					return nil, "transform for method " + key + " is not the identity", false
+				}
+			case "S256":
+				if !isS256Of(rv, fn.Params[0]) {
+					return nil, "transform for S256 is not base64url(sha256(verifier))", false
+				}
+			default:
+				return nil, "transform table has an entry for the unknown method " + key, false
+			}
+		}
+		seen[key] = true
+	}
+	if !seen["S256"] {
+		return nil, "transform table has no S256 entry", false
+	}
+	return q, "", true
 }
